@@ -1,12 +1,540 @@
-//! C20 — stub (not built yet).
+//! C20 — the CODATA table and the named constants reproduce the bundled NIST listing.
+//!
+//! Reference model: an independent parser of `/repo/codata.txt` (read at run time, so edits to the
+//! working tree are seen). It does not slice fixed columns like `build.rs` does: the data region
+//! starts after the dashed rule, fields are separated by runs of >= 2 blanks, digit-group blanks
+//! and the "..." truncation mark are removed, "(exact)" is uncertainty 0. Every row is a case
+//! (exhaustive); so is every named constant, every defining SI value and every derived relation.
+
+use crate::json::J;
 use crate::report::*;
+use crate::rng::CaseHash;
+use bacon_sci::constants as k;
+use bacon_sci::constants::CODATA;
+use std::sync::Arc;
+
+const LISTING: &str = "/repo/codata.txt";
+
+/// rows of the 2018 listing shipped with the pinned tree; fewer parsed rows => INCONCLUSIVE
+const ROWS_EXPECTED: usize = 354;
+
+/// a constant given with the full precision of its defining expression (instead of the listing's
+/// truncated digits) must agree with the harness' evaluation of that expression to this relative
+/// accuracy (the expressions are a handful of f64 operations: a few ulp)
+const DEFINING_REL: f64 = 64.0 * f64::EPSILON;
 
 pub fn meta() -> CheckMeta {
-    CheckMeta { id: "C20", level: "exploration", rule: "stub".into(), assumptions: vec![], exhaustive: false, stuck_is_violation: false }
+    CheckMeta {
+        id: "C20",
+        level: "exploration",
+        rule: "exhaustive: every data row of /repo/codata.txt (independent parser: data start = line after the dashed rule, fields = runs of >= 2 blanks) is a case — name must be a key of CODATA with bit-equal value, bit-equal uncertainty (0 for '(exact)') and equal unit string; one case for the table as a whole (len == number of rows, no key that is not a listed name, names unique); one case per named pub const (bit-equal to the listed value/uncertainty; where the listing truncates an exact value with '...', the full-precision value of the defining expression is accepted too), per defining SI value (c, h, e, k, N_A, g_n: bit-equal to the exact decimal) and per derived relation (h_bar = h/2pi, R = N_A k, sigma = 2pi^5k^4/(15h^3c^2), Wien b = hc/(x5 k), b' = x3 k/h: within one unit of the last listed digit). distinct = distinct (kind, name)".into(),
+        assumptions: vec![
+            "the listing is the ground truth: an edit of codata.txt itself is only noticed through the named constants and the defining SI values".into(),
+            "decimal-to-binary conversion of the cleaned value string by Rust's str::parse::<f64> is correctly rounded, as is rustc's literal conversion in the generated map, so bit equality is the expected outcome".into(),
+        ],
+        exhaustive: true,
+        stuck_is_violation: false,
+    }
 }
+
+// ------------------------------------------------------------------ independent parser
+
+#[derive(Clone, Debug)]
+pub struct Row {
+    pub line_no: usize,
+    pub raw: String,
+    pub name: String,
+    pub value_text: String,
+    pub unc_text: String,
+    pub unit: String,
+    pub value: f64,
+    pub unc: f64,
+    pub exact: bool,
+    pub truncated: bool,
+    /// one unit of the last listed digit of the value
+    pub last_digit: f64,
+}
+
+pub enum Line {
+    Row(Row),
+    Unparsed(usize, String, String),
+}
+
+/// split on runs of >= 2 blanks
+fn fields(s: &str) -> Vec<String> {
+    let mut out = vec![];
+    let mut cur = String::new();
+    let mut blanks = 0usize;
+    for ch in s.chars() {
+        if ch == ' ' || ch == '\t' {
+            blanks += if ch == '\t' { 2 } else { 1 };
+            continue;
+        }
+        if blanks >= 2 && !cur.is_empty() {
+            out.push(std::mem::take(&mut cur));
+        } else if blanks == 1 && !cur.is_empty() {
+            cur.push(' ');
+        }
+        blanks = 0;
+        cur.push(ch);
+    }
+    if !cur.is_empty() {
+        out.push(cur);
+    }
+    out
+}
+
+/// 10^(exponent - number of decimals) of a cleaned decimal string such as "5.670374419e-8"
+fn last_digit_unit(clean: &str) -> Option<f64> {
+    let (mant, exp) = match clean.find(|c| c == 'e' || c == 'E') {
+        Some(p) => (&clean[..p], clean[p + 1..].parse::<i32>().ok()?),
+        None => (clean, 0),
+    };
+    let decimals = match mant.find('.') {
+        Some(p) => (mant.len() - p - 1) as i32,
+        None => 0,
+    };
+    format!("1e{}", exp - decimals).parse::<f64>().ok()
+}
+
+fn parse_number(text: &str) -> Option<(f64, String, bool)> {
+    let truncated = text.contains("...");
+    let clean: String = text.replace("...", "").chars().filter(|c| *c != ' ').collect();
+    if clean.is_empty() || !clean.chars().all(|c| c.is_ascii_digit() || matches!(c, '.' | '-' | '+' | 'e' | 'E')) {
+        return None;
+    }
+    let v = clean.parse::<f64>().ok()?;
+    Some((v, clean, truncated))
+}
+
+pub fn parse_listing(text: &str) -> Result<Vec<Line>, String> {
+    let lines: Vec<&str> = text.lines().collect();
+    let rule = lines
+        .iter()
+        .position(|l| {
+            let t = l.trim();
+            t.len() >= 20 && t.chars().all(|c| c == '-')
+        })
+        .ok_or_else(|| "no dashed rule found: cannot locate the data region".to_string())?;
+    let mut out = vec![];
+    for (i, l) in lines.iter().enumerate().skip(rule + 1) {
+        if l.trim().is_empty() {
+            continue;
+        }
+        let f = fields(l.trim_end());
+        let bad = |why: &str| Line::Unparsed(i + 1, l.to_string(), why.to_string());
+        if f.len() != 3 && f.len() != 4 {
+            out.push(bad(&format!("{} fields", f.len())));
+            continue;
+        }
+        let (value, clean, truncated) = match parse_number(&f[1]) {
+            Some(x) => x,
+            None => {
+                out.push(bad("value is not a number"));
+                continue;
+            }
+        };
+        let exact = f[2] == "(exact)";
+        let unc = if exact {
+            0.0
+        } else {
+            match parse_number(&f[2]) {
+                Some((u, _, false)) => u,
+                _ => {
+                    out.push(bad("uncertainty is neither a number nor (exact)"));
+                    continue;
+                }
+            }
+        };
+        let last_digit = match last_digit_unit(&clean) {
+            Some(u) => u,
+            None => {
+                out.push(bad("cannot determine the last listed digit"));
+                continue;
+            }
+        };
+        out.push(Line::Row(Row {
+            line_no: i + 1,
+            raw: l.to_string(),
+            name: f[0].clone(),
+            value_text: f[1].clone(),
+            unc_text: f[2].clone(),
+            unit: if f.len() == 4 { f[3].clone() } else { String::new() },
+            value,
+            unc,
+            exact,
+            truncated,
+            last_digit,
+        }));
+    }
+    Ok(out)
+}
+
+struct Listing {
+    lines: Vec<Line>,
+    error: Option<String>,
+}
+
+fn load() -> Listing {
+    match std::fs::read_to_string(LISTING) {
+        Err(e) => Listing { lines: vec![], error: Some(format!("cannot read {}: {}", LISTING, e)) },
+        Ok(t) => match parse_listing(&t) {
+            Ok(lines) => Listing { lines, error: None },
+            Err(e) => Listing { lines: vec![], error: Some(format!("{}: {}", LISTING, e)) },
+        },
+    }
+}
+
+impl Listing {
+    fn find(&self, name: &str) -> Option<&Row> {
+        self.lines.iter().find_map(|l| match l {
+            Line::Row(r) if r.name == name => Some(r),
+            _ => None,
+        })
+    }
+}
+
+fn bits(x: f64) -> String {
+    format!("0x{:016x}", x.to_bits())
+}
+
+// ------------------------------------------------------------------ named constants
+
+#[derive(Clone, Copy)]
+enum Field {
+    Value,
+    Unc,
+}
+
+struct Named {
+    ident: &'static str,
+    got: f64,
+    listing_name: &'static str,
+    field: Field,
+}
+
+fn named() -> Vec<Named> {
+    let n = |ident, got, listing_name, field| Named { ident, got, listing_name, field };
+    vec![
+        n("c", k::c, "speed of light in vacuum", Field::Value),
+        n("permittivity", k::permittivity, "vacuum electric permittivity", Field::Value),
+        n("permittivity_uncertainty", k::permittivity_uncertainty, "vacuum electric permittivity", Field::Unc),
+        n("permeability", k::permeability, "vacuum mag. permeability", Field::Value),
+        n("permeability_uncertainty", k::permeability_uncertainty, "vacuum mag. permeability", Field::Unc),
+        n("h", k::h, "Planck constant", Field::Value),
+        n("h_bar", k::h_bar, "reduced Planck constant", Field::Value),
+        n("G", k::G, "Newtonian constant of gravitation", Field::Value),
+        n("G_uncertainty", k::G_uncertainty, "Newtonian constant of gravitation", Field::Unc),
+        n("g", k::g, "standard acceleration of gravity", Field::Value),
+        n("e_charge", k::e_charge, "elementary charge", Field::Value),
+        n("R", k::R, "molar gas constant", Field::Value),
+        n("fine_structure", k::fine_structure, "fine-structure constant", Field::Value),
+        n("fine_structure_uncertainty", k::fine_structure_uncertainty, "fine-structure constant", Field::Unc),
+        n("avogadro", k::avogadro, "Avogadro constant", Field::Value),
+        n("boltzmann", k::boltzmann, "Boltzmann constant", Field::Value),
+        n("stefan_boltzmann", k::stefan_boltzmann, "Stefan-Boltzmann constant", Field::Value),
+        n("wien", k::wien, "Wien wavelength displacement law constant", Field::Value),
+        n("wien_frequency", k::wien_frequency, "Wien frequency displacement law constant", Field::Value),
+        n("rydberg", k::rydberg, "Rydberg constant", Field::Value),
+        n("rydberg_uncertainty", k::rydberg_uncertainty, "Rydberg constant", Field::Unc),
+        n("electron_mass", k::electron_mass, "electron mass", Field::Value),
+        n("electron_mass_uncertainty", k::electron_mass_uncertainty, "electron mass", Field::Unc),
+        n("proton_mass", k::proton_mass, "proton mass", Field::Value),
+        n("proton_mass_uncertainty", k::proton_mass_uncertainty, "proton mass", Field::Unc),
+        n("neutron_mass", k::neutron_mass, "neutron mass", Field::Value),
+        n("neutron_mass_uncertainty", k::neutron_mass_uncertainty, "neutron mass", Field::Unc),
+    ]
+}
+
+/// defining values of the SI (2019 redefinition; g_n: 3rd CGPM 1901), written out here
+fn defining() -> Vec<(&'static str, f64, f64)> {
+    vec![
+        ("c", k::c, 299_792_458.0),
+        ("h", k::h, 6.626_070_15e-34),
+        ("e_charge", k::e_charge, 1.602_176_634e-19),
+        ("boltzmann", k::boltzmann, 1.380_649e-23),
+        ("avogadro", k::avogadro, 6.022_140_76e23),
+        ("g", k::g, 9.806_65),
+    ]
+}
+
+/// root of x = n (1 - exp(-x)), x > 0 (Wien's displacement law: n = 5 wavelength, n = 3 frequency)
+fn wien_root(n: f64) -> f64 {
+    let mut x = n;
+    for _ in 0..200 {
+        let nx = n * (1.0 - (-x).exp());
+        if nx == x {
+            break;
+        }
+        x = nx;
+    }
+    x
+}
+
+struct Relation {
+    name: &'static str,
+    formula: &'static str,
+    got: f64,
+    derived: f64,
+    listing_name: &'static str,
+}
+
+fn relations() -> Vec<Relation> {
+    let pi = std::f64::consts::PI;
+    vec![
+        Relation { name: "h_bar", formula: "h/(2 pi)", got: k::h_bar, derived: k::h / (2.0 * pi), listing_name: "reduced Planck constant" },
+        Relation { name: "R", formula: "avogadro*boltzmann", got: k::R, derived: k::avogadro * k::boltzmann, listing_name: "molar gas constant" },
+        Relation {
+            name: "stefan_boltzmann",
+            formula: "2 pi^5 k^4/(15 h^3 c^2)",
+            got: k::stefan_boltzmann,
+            // grouped so that no intermediate under/overflows: (k/h)^3 * k / c^2
+            derived: 2.0 * pi.powi(5) / 15.0 * (k::boltzmann / k::h).powi(3) * k::boltzmann / (k::c * k::c),
+            listing_name: "Stefan-Boltzmann constant",
+        },
+        Relation { name: "wien", formula: "h c/(k x), x = 5(1-exp(-x))", got: k::wien, derived: k::h * k::c / (k::boltzmann * wien_root(5.0)), listing_name: "Wien wavelength displacement law constant" },
+        Relation { name: "wien_frequency", formula: "x k/h, x = 3(1-exp(-x))", got: k::wien_frequency, derived: wien_root(3.0) * k::boltzmann / k::h, listing_name: "Wien frequency displacement law constant" },
+    ]
+}
+
+// ------------------------------------------------------------------ stages
+
 pub fn stages(_ctx: &Ctx) -> Vec<Stage> {
-    vec![]
+    let listing = Arc::new(load());
+    let mut st = vec![];
+
+    // ---- the table as a whole
+    let l = listing.clone();
+    st.push(Stage::new("table", 1, move |_i, rep| {
+        if let Some(e) = &l.error {
+            rep.harness_errors.push(e.clone());
+            return;
+        }
+        rep.eval();
+        let rows: Vec<&Row> = l.lines.iter().filter_map(|x| if let Line::Row(r) = x { Some(r) } else { None }).collect();
+        let unparsed = l.lines.len() - rows.len();
+        rep.count("listing/data_lines", l.lines.len() as i64);
+        rep.count("listing/rows_parsed", rows.len() as i64);
+        rep.count("listing/rows_unparsed", unparsed as i64);
+        rep.count("table/len", CODATA.len() as i64);
+        rep.nontrivial(CaseHash::new("c20-table").0);
+        let mut names = std::collections::BTreeSet::new();
+        for r in &rows {
+            if !names.insert(r.name.as_str()) {
+                rep.inconclusive("duplicate-name-in-listing");
+            }
+        }
+        rep.count("listing/distinct_names", names.len() as i64);
+        let case = || J::obj().set("listing", LISTING).set("rows_parsed", rows.len()).set("rows_unparsed", unparsed).set("distinct_names", names.len()).set("table_len", CODATA.len());
+        if unparsed == 0 && CODATA.len() != names.len() {
+            rep.violation("codata/len", case(), format!("CODATA.len() = {} but the listing has {} quantities", CODATA.len(), names.len()));
+        }
+        let mut extra = 0;
+        for (key, (v, u, unit)) in CODATA.entries() {
+            rep.count("table/keys_checked", 1);
+            if !names.contains(*key) && unparsed == 0 {
+                extra += 1;
+                rep.violation("codata/extra-key", case().set("key", *key).set("value", *v).set("uncertainty", *u).set("unit", *unit), format!("CODATA has the key {:?} which is not a quantity name of the listing", key));
+            }
+        }
+        if rep.wants_sample() {
+            rep.sample(case().set("keys_not_in_listing", extra));
+        }
+    }));
+
+    // ---- every row
+    let l = listing.clone();
+    let n_rows = listing.lines.len() as u64;
+    st.push(Stage::new("rows", n_rows, move |i, rep| {
+        let r = match &l.lines[i as usize] {
+            Line::Unparsed(no, raw, why) => {
+                rep.inconclusive("row-not-parsed");
+                rep.count("rows/unparsed", 1);
+                if rep.wants_sample() {
+                    rep.sample(J::obj().set("line", *no).set("raw", raw.as_str()).set("unparsed_because", why.as_str()));
+                }
+                return;
+            }
+            Line::Row(r) => r,
+        };
+        rep.eval();
+        rep.count("rows/checked", 1);
+        rep.nontrivial(CaseHash::new("c20-row").s(&r.name).0);
+        if r.exact {
+            rep.count("rows/exact", 1);
+        }
+        if r.truncated {
+            rep.count("rows/value_truncated_with_dots", 1);
+        }
+        if !r.unit.is_empty() {
+            rep.count("rows/with_unit", 1);
+        } else {
+            rep.count("rows/dimensionless", 1);
+        }
+        if r.value < 0.0 {
+            rep.count("rows/negative_value", 1);
+        }
+        if r.value_text.contains('e') {
+            rep.count("rows/with_exponent", 1);
+        }
+        if r.value_text.split('.').next().map(|s| s.contains(' ')).unwrap_or(false) {
+            rep.count("rows/grouped_integer_part", 1);
+        }
+        let case = |got: Option<&(f64, f64, &str)>| {
+            let mut j = J::obj()
+                .set("line", r.line_no)
+                .set("raw", r.raw.as_str())
+                .set("name", r.name.as_str())
+                .set("listed_value_text", r.value_text.as_str())
+                .set("listed_uncertainty_text", r.unc_text.as_str())
+                .set("listed_unit", r.unit.as_str())
+                .set("expected_value", r.value)
+                .set("expected_value_bits", bits(r.value))
+                .set("expected_uncertainty", r.unc)
+                .set("expected_uncertainty_bits", bits(r.unc));
+            if let Some((v, u, unit)) = got {
+                j.put("table_value", *v);
+                j.put("table_value_bits", bits(*v));
+                j.put("table_uncertainty", *u);
+                j.put("table_uncertainty_bits", bits(*u));
+                j.put("table_unit", *unit);
+            }
+            j
+        };
+        match CODATA.get(r.name.as_str()) {
+            None => {
+                rep.violation("codata/missing", case(None), format!("CODATA.get({:?}) is None (listing line {})", r.name, r.line_no));
+            }
+            Some(e) => {
+                if e.0.to_bits() != r.value.to_bits() {
+                    rep.violation("codata/value", case(Some(e)), format!("{:?}: table value {:e} differs from the listed {} = {:e}", r.name, e.0, r.value_text, r.value));
+                }
+                if e.1.to_bits() != r.unc.to_bits() {
+                    rep.violation("codata/uncertainty", case(Some(e)), format!("{:?}: table uncertainty {:e} differs from the listed {} = {:e}", r.name, e.1, r.unc_text, r.unc));
+                }
+                if e.2 != r.unit {
+                    rep.violation("codata/unit", case(Some(e)), format!("{:?}: table unit {:?} differs from the listed {:?}", r.name, e.2, r.unit));
+                }
+                if rep.wants_sample() && (i % 71 == 0) {
+                    rep.sample(case(Some(e)));
+                }
+            }
+        }
+    }));
+
+    // ---- named constants
+    let l = listing.clone();
+    let n_named = named().len() as u64;
+    st.push(Stage::new("named", n_named, move |i, rep| {
+        let c = &named()[i as usize];
+        let row = match l.find(c.listing_name) {
+            Some(r) => r,
+            None => {
+                rep.inconclusive("listing-row-for-named-constant-not-found");
+                return;
+            }
+        };
+        rep.eval();
+        rep.count("named/checked", 1);
+        rep.nontrivial(CaseHash::new("c20-named").s(c.ident).0);
+        let (expected, text, what) = match c.field {
+            Field::Value => (row.value, &row.value_text, "value"),
+            Field::Unc => (row.unc, &row.unc_text, "uncertainty"),
+        };
+        let case = J::obj()
+            .set("constant", format!("bacon_sci::constants::{}", c.ident))
+            .set("got", c.got)
+            .set("got_bits", bits(c.got))
+            .set("listing_name", c.listing_name)
+            .set("field", what)
+            .set("listed_text", text.as_str())
+            .set("expected", expected)
+            .set("expected_bits", bits(expected))
+            .set("listing_line", row.line_no);
+        let equal = c.got.to_bits() == expected.to_bits();
+        // "equals the table entry (or the defining exact value)": where the listing truncates an exact
+        // quantity ("...") the full-precision value of its defining expression is accepted as well
+        let exact_alt = if matches!(c.field, Field::Value) && row.truncated { relations().into_iter().find(|r| r.name == c.ident).map(|r| r.derived) } else { None };
+        let by_definition = exact_alt.map(|d| (c.got - d).abs() <= DEFINING_REL * d.abs()).unwrap_or(false);
+        let ok = equal || by_definition;
+        if equal {
+            rep.count("named/bit_equal", 1);
+        } else if by_definition {
+            rep.count("named/equal_to_defining_expression", 1);
+        }
+        rep.max("named/abs_rel_difference", ((c.got - expected) / if expected != 0.0 { expected } else { 1.0 }).abs());
+        if !ok {
+            rep.violation(&format!("named/{}", c.ident), case.clone(), format!("constants::{} = {:e} but the listing gives {} {} = {:e}", c.ident, c.got, c.listing_name, what, expected));
+        }
+        if rep.wants_sample() && i % 9 == 0 {
+            rep.sample(case);
+        }
+    }));
+
+    // ---- defining SI values
+    let n_def = defining().len() as u64;
+    st.push(Stage::new("defining", n_def, move |i, rep| {
+        let (ident, got, exact) = defining()[i as usize];
+        rep.eval();
+        rep.count("defining/checked", 1);
+        rep.nontrivial(CaseHash::new("c20-defining").s(ident).0);
+        if got.to_bits() != exact.to_bits() {
+            rep.violation(
+                &format!("defining/{}", ident),
+                J::obj().set("constant", format!("bacon_sci::constants::{}", ident)).set("got", got).set("got_bits", bits(got)).set("defining_value", exact).set("defining_bits", bits(exact)),
+                format!("constants::{} = {:e} is not the defining value {:e}", ident, got, exact),
+            );
+        }
+    }));
+
+    // ---- derived relations
+    let l = listing.clone();
+    let n_rel = relations().len() as u64;
+    st.push(Stage::new("relations", n_rel, move |i, rep| {
+        let r = &relations()[i as usize];
+        let row = match l.find(r.listing_name) {
+            Some(x) => x,
+            None => {
+                rep.inconclusive("listing-row-for-relation-not-found");
+                return;
+            }
+        };
+        rep.eval();
+        rep.count("relations/checked", 1);
+        rep.nontrivial(CaseHash::new("c20-relation").s(r.name).0);
+        // "to the precision quoted": one unit of the last listed digit (the listing truncates)
+        let unit = row.last_digit;
+        let diff = (r.got - r.derived).abs();
+        rep.max("relations/difference_in_units_of_last_listed_digit", diff / unit);
+        rep.max(&format!("relations/{}/difference_in_units_of_last_listed_digit", r.name), diff / unit);
+        let case = J::obj()
+            .set("constant", format!("bacon_sci::constants::{}", r.name))
+            .set("got", r.got)
+            .set("formula", r.formula)
+            .set("derived_from_library_constants", r.derived)
+            .set("listed_text", row.value_text.as_str())
+            .set("one_unit_of_last_listed_digit", unit)
+            .set("difference", diff);
+        if !(diff <= unit) {
+            rep.violation(&format!("relation/{}", r.name), case.clone(), format!("constants::{} = {:e} but {} = {:e}: differs by {:e}, more than one unit {:e} of the last digit quoted", r.name, r.got, r.formula, r.derived, diff, unit));
+        }
+        if rep.wants_sample() && i == 2 {
+            rep.sample(case);
+        }
+    }));
+    st
 }
-pub fn thresholds(_ctx: &Ctx, _rep: &Report) -> Vec<Threshold> {
-    vec![Threshold { what: "check not built".into(), required: 1.0, observed: 0.0 }]
+
+pub fn thresholds(_ctx: &Ctx, rep: &Report) -> Vec<Threshold> {
+    vec![
+        Threshold { what: "listing rows parsed and compared with the table".into(), required: ROWS_EXPECTED as f64, observed: rep.counter("rows/checked") as f64 },
+        Threshold { what: "fraction of data lines the independent parser understood".into(), required: 1.0, observed: if rep.counter("listing/data_lines") > 0 { rep.counter("listing/rows_parsed") as f64 / rep.counter("listing/data_lines") as f64 } else { 0.0 } },
+        Threshold { what: "keys of the compiled table checked against the listing".into(), required: ROWS_EXPECTED as f64, observed: rep.counter("table/keys_checked") as f64 },
+        Threshold { what: "named constants compared with their listing row".into(), required: named().len() as f64, observed: rep.counter("named/checked") as f64 },
+        Threshold { what: "defining SI values compared".into(), required: defining().len() as f64, observed: rep.counter("defining/checked") as f64 },
+        Threshold { what: "derived relations evaluated".into(), required: relations().len() as f64, observed: rep.counter("relations/checked") as f64 },
+        Threshold { what: "exact rows (uncertainty 0) seen".into(), required: 50.0, observed: rep.counter("rows/exact") as f64 },
+        Threshold { what: "rows with a negative value seen".into(), required: 20.0, observed: rep.counter("rows/negative_value") as f64 },
+        Threshold { what: "rows with a truncated ('...') value seen".into(), required: 50.0, observed: rep.counter("rows/value_truncated_with_dots") as f64 },
+    ]
 }
